@@ -56,6 +56,9 @@ type MetricRegistry struct {
 
 	mu sync.Mutex
 	wg sync.WaitGroup
+	// lifecycle serialises Start and Stop: Stop waits for the poller without holding mu, and a Start
+	// slipping in between would add a second poller that Stop then waits for as well
+	lifecycle sync.Mutex
 
 	started bool
 	stopper chan bool
@@ -120,6 +123,8 @@ func NewMetricRegistryWithClient(
 
 // Start will start the metric registry polling
 func (r *MetricRegistry) Start() {
+	r.lifecycle.Lock()
+	defer r.lifecycle.Unlock()
 	r.mu.Lock()
 	if !r.started {
 		r.started = true
@@ -154,6 +159,8 @@ func (r *MetricRegistry) run() {
 
 // Stop will gracefully stop the registry
 func (r *MetricRegistry) Stop() {
+	r.lifecycle.Lock()
+	defer r.lifecycle.Unlock()
 	r.mu.Lock()
 	if !r.started {
 		r.mu.Unlock()
